@@ -246,6 +246,65 @@ func ruleC10Root(p *Prog, a *Anchors, r *Report) {
 	if !okExec {
 		r.Bad(p.FuncName(a.ExecCore)+":runs-root-of-result", p.Pos(a.ExecCore.Pos()), "no execution of <template>.root found")
 	}
+	// … and nothing else: no other node of any template in the chain is executed by the executor or its helpers
+	// (what a child writes outside blocks must have no effect at all)
+	helpers := []*ssa.Function{a.ExecCore}
+	seenH := map[*ssa.Function]bool{a.ExecCore: true, builder: true}
+	for i := 0; i < len(helpers) && i < 32; i++ {
+		for _, b := range helpers[i].Blocks {
+			for _, in := range b.Instrs {
+				ci, ok := in.(ssa.CallInstruction)
+				if !ok {
+					continue
+				}
+				cal := ci.Common().StaticCallee()
+				if cal == nil || !p.InPkg(cal) || cal.Blocks == nil || seenH[cal] || cal.Name() == "Execute" {
+					continue
+				}
+				seenH[cal] = true
+				helpers = append(helpers, cal)
+			}
+		}
+	}
+	others := 0
+	for _, h := range helpers {
+		for _, g := range withClosures(h) {
+			for _, b := range g.Blocks {
+				for _, in := range b.Instrs {
+					ci, ok := in.(ssa.CallInstruction)
+					if !ok {
+						continue
+					}
+					cc := ci.Common()
+					isExec := (cc.IsInvoke() && cc.Method.Name() == "Execute") || (cc.StaticCallee() != nil && cc.StaticCallee().Name() == "Execute" && p.InPkg(cc.StaticCallee()))
+					if !isExec {
+						continue
+					}
+					hasCtx := false
+					for _, arg := range cc.Args {
+						if types.Identical(arg.Type(), types.NewPointer(a.ExecCtx)) {
+							hasCtx = true
+						}
+					}
+					if !hasCtx {
+						continue
+					}
+					if !cc.IsInvoke() && len(cc.Args) > 0 {
+						if base, n, fld := fieldLoadBase(cc.Args[0]); n != nil && n.Obj().Name() == "Template" && fld == "root" {
+							if ex, ok := base.(*ssa.Extract); ok && ex.Tuple == ssa.Value(bcall) && ex.Index == 0 {
+								continue
+							}
+						}
+					}
+					others++
+					r.Bad(p.FuncName(g)+":executes-other-node", p.InstrPos(in), "besides the base document the executor also executes %s: nodes a derived template has outside its blocks (set, macro, import …) take effect in the rendering", p.VN(cc.Value))
+				}
+			}
+		}
+	}
+	if others == 0 {
+		r.OK(p.FuncName(a.ExecCore)+":only-root", p.Pos(a.ExecCore.Pos()), "the executor and its %d helper(s) execute no node other than the base document", len(helpers)-1)
+	}
 	// builder: result #0 on success paths = phi over {receiver, load(parent) of itself}, exit condition parent == nil
 	for _, ret := range returnsOf(builder) {
 		if len(ret.Results) < 3 || !isNilConst(res(ret, 2)) && !mayBeNilValue(res(ret, 2), 0) {
@@ -376,6 +435,45 @@ func ruleC10Last(p *Prog, a *Anchors, r *Report) {
 	}
 	checkLast(exec, "the block node")
 	checkLast(super, "block.Super")
+	// the Super information is (re)bound for every definition that is executed: a definition run with the `block`
+	// name left over from another block would render that block's parent
+	for _, f := range []*ssa.Function{exec, super} {
+		for _, b := range f.Blocks {
+			for _, in := range b.Instrs {
+				ci, ok := in.(ssa.CallInstruction)
+				if !ok || ci.Common().StaticCallee() == nil || ci.Common().StaticCallee().Name() != "Execute" || len(ci.Common().Args) < 2 {
+					continue
+				}
+				if n := structOf(ci.Common().Args[0].Type()); n == nil || n.Obj().Name() != "NodeWrapper" {
+					continue
+				}
+				ctxArg := ci.Common().Args[1]
+				key := p.FuncName(f) + ":binds-block-info"
+				bound := MustPass(in, func(x ssa.Instruction) bool {
+					mu, ok := x.(*ssa.MapUpdate)
+					if !ok {
+						return false
+					}
+					k, isC := constString(stripConv(mu.Key))
+					if !isC || k != "block" || !loadsField(mu.Map, "ExecutionContext", "Private") {
+						return false
+					}
+					base, _, _ := fieldLoadBase(mu.Map)
+					if base != ctxArg && p.VN(base) != p.VN(ctxArg) {
+						return false
+					}
+					// the bound value carries the remaining definitions
+					n := structOf(stripConv(mu.Value).Type())
+					return n != nil && n.Obj().Name() == "tagBlockInformation"
+				})
+				if bound {
+					r.OK(key, p.InstrPos(in), "on every path the definition runs with `block` bound to its own remaining definitions")
+				} else {
+					r.Bad(key, p.InstrPos(in), "a definition can be executed without `block` having been bound for it in the context it runs in: block.Super would refer to whatever block ran before (and not be empty at the base)")
+				}
+			}
+		}
+	}
 	// Super renders the parent definition on every call: its successful results are AsSafeValue of a buffer
 	// rendered in this very call (or of the empty constant at the base)
 	asSafe := p.Func("AsSafeValue")
